@@ -366,3 +366,33 @@ def check_eps_translation(ctx, rep, f, rule='R-EPS'):
         rep.holds(rule, f, trans[0], 'operand epsilon moves are re-keyed with the result epsilon, other symbols are kept')
     else:
         rep.violates(rule, f, loop, 'the operand transitions are copied without translating {}.epsilon into the epsilon of the result'.format(opnd))
+
+
+def check_universe_monotone(ctx, rep, funcs, attr='V', rule=RULE + '.universe'):
+    """the universe against which fresh names are requested only grows while a construction runs: shrinking it lets a later
+    request return a name that still occurs in the object"""
+    n = 0
+    for f in funcs:
+        for g in [f] + list(f.nested.values()):
+            for st in walk_no_nested(g.node):
+                tgt = None
+                how = None
+                if isinstance(st, ast.AugAssign) and isinstance(st.target, ast.Attribute) and st.target.attr == attr:
+                    tgt, how = st, type(st.op).__name__
+                    if isinstance(st.op, ast.BitOr):
+                        continue
+                if isinstance(st, ast.Expr) and isinstance(st.value, ast.Call) and isinstance(st.value.func, ast.Attribute) and isinstance(st.value.func.value, ast.Attribute) \
+                        and st.value.func.value.attr == attr and st.value.func.attr in ('remove', 'discard', 'clear', 'pop', 'difference_update', 'intersection_update'):
+                    tgt, how = st, st.value.func.attr
+                if isinstance(st, ast.Assign) and any(isinstance(t, ast.Attribute) and t.attr == attr for t in st.targets):
+                    v = st.value
+                    grows = isinstance(v, ast.BinOp) and isinstance(v.op, ast.BitOr) and any(isinstance(x, ast.Attribute) and x.attr == attr for x in (v.left, v.right))
+                    if not grows:
+                        tgt, how = st, 'assignment'
+                if tgt is not None:
+                    n += 1
+                    rep.violates(rule, g, tgt, 'the variable set .{} is shrunk or replaced ({}) inside a normal-form phase: fresh names are only fresh for .{}, so a later request can return a name that still occurs on a right-hand side'.format(attr, how, attr))
+    if n == 0:
+        for f in funcs:
+            rep.holds(rule, f, 'def ' + f.name, 'the universe .{} only grows in this phase'.format(attr), nontrivial=False)
+    return n
